@@ -112,9 +112,29 @@ def _cprod(idx, conc):
 
 # ================================================================================================ constants
 def run_constants(col):
-    from chempy.kinetics.arrhenius import _get_R
-    from chempy.kinetics.eyring import _get_kB_over_h
-    from chempy.units import default_constants as dc, default_units as u, to_unitless
+    # the two private helpers are read where the modules have them; where they do not (renamed, inlined) the same constants are read off the public
+    # equations: R = Ea / (T * -ln(arrhenius_equation(1, Ea, T))) and kB/h = eyring_equation(0, 0, T) / T
+    import math
+    from chempy.kinetics import arrhenius as _arr, eyring as _eyr
+    from chempy.units import default_constants as dc, default_units as u, to_unitless, Backend
+
+    def _get_R(constants=None, units=None):
+        f = getattr(_arr, "_get_R", None)
+        if f is not None:
+            return f(constants, units)
+        if constants is None:
+            return 8314.0 / (300.0 * -math.log(_arr.arrhenius_equation(1.0, 8314.0, 300.0)))
+        k = _arr.arrhenius_equation(1.0, 8314.0 * u.J / u.mol, 300.0 * u.K, constants=constants, units=units, backend=Backend())
+        return (8314.0 / (300.0 * -math.log(float(to_unitless(k))))) * u.J / u.mol / u.K
+
+    def _get_kB_over_h(constants=None, units=None):
+        f = getattr(_eyr, "_get_kB_over_h", None)
+        if f is not None:
+            return f(constants, units)
+        if constants is None:
+            return _eyr.eyring_equation(0.0, 0.0, 300.0) / 300.0
+        k = _eyr.eyring_equation(0.0 * u.J / u.mol, 0.0 * u.J / u.mol / u.K, 300.0 * u.K, constants=constants, units=units, backend=Backend())
+        return k / (300.0 * u.K)
     items = [("_get_R()", lambda: float(_get_R()), CODATA18_R),
              ("_get_R(default_constants, default_units)", lambda: float(to_unitless(_get_R(dc, u), u.J / u.mol / u.K)), CODATA18_R),
              ("_get_kB_over_h()", lambda: float(_get_kB_over_h()), CODATA18_KBH),
